@@ -165,6 +165,7 @@ pub fn run<S, K: Hash>(ctx: &Ctx, rep: &mut Report, spec: Spec<S, K>) -> Stats {
                         guard::heartbeat(|| format!("{}:depth{}:{}..{}", spec.name, depth, lo, hi));
                         for i in lo..hi {
                             let (h, fp) = &frontier[i];
+                            guard::tick();
                             local.push((i, expand(h, *fp)));
                         }
                     }
